@@ -158,6 +158,27 @@ def run(tier):
                 if zv['unpaired']:
                     # not demanded by the property (dateutil does not round-trip inside Europe/Dublin's negative-DST hour): recorded only
                     chk.notes.append('%s %s: %d transition items without a partner one minute away' % (flavour, d['zone'], len(zv['unpaired'])))
+    # ---- 2b. the older generator tools/validator/zstdgenerator.py (transition instants from ZoneSpecifier on tools/zonedbpy,
+    #          values from pytz): pairs at every transition it is given, samples, item fidelity
+    nzst = 0
+    sp = os.path.join(work, 'zst.json')
+    op = os.path.join(work, 'zstout.json')
+    zr = (2000, 2012) if tier == 'quick' else (2000, 2038)
+    json.dump({'zones': [], 'start': zr[0], 'until': zr[1]}, open(sp, 'w'))     # [] = every zone of tools/zonedbpy
+    rc, out, err, _ = common.run_cmd([common.PY, DRV, 'zst', sp, op], env=env, timeout=6000)
+    if rc != 0:
+        chk.violation('zst:crash', 'zstdgenerator driver failed: %s' % err[-1200:], {'stderr': err[-2500:]})
+    else:
+        for z, rec in sorted(json.load(open(op))['zones'].items()):
+            if rec.get('missing'):
+                continue
+            if 'error' in rec:
+                chk.violation('zst:%s:exception' % z, 'zstdgenerator raised %s for %s' % (rec['error'], z), {'zone': z})
+                continue
+            nzst += rec['items']
+            for pr in rec['problems']:
+                chk.violation('zst:%s:%s' % (z, pr.split(' ')[0] + '-' + pr.split(' ')[1]), 'zstdgenerator, %s [%d, %d): %s' % (z, zr[0], zr[1], pr), {'zone': z})
+    chk.add(zstdgenerator_items_checked=nzst)
     # ---- 3. rendering to the C++ validation tables preserves every number and string
     nren = 0
     nrz = 0
